@@ -20,7 +20,13 @@ import (
 	vm "verif/harness/viewmodel"
 )
 
-func TestMain(m *testing.M) { pbt.Main(m, "C17") }
+func TestMain(m *testing.M) {
+	if os.Getenv("VERIF_C17_SERVE") != "" {
+		serve()
+		return
+	}
+	pbt.Main(m, "C17")
+}
 
 // ---------------------------------------------------------------------------
 // (c) JSON-safe conversion of arrays / views
@@ -195,7 +201,10 @@ func scalarModels() []string {
 
 // genReq draws a structured request. full = every parameter present (no defaults used).
 func genReq(t *rapid.T, full bool) Req {
-	name := rapid.SampledFrom(scalarModels()).Draw(t, "model")
+	return genReqFor(t, rapid.SampledFrom(scalarModels()).Draw(t, "model"), full)
+}
+
+func genReqFor(t *rapid.T, name string, full bool) Req {
 	desc := simref.New(name).Description()
 	cc := simref.DrawCellCase(t, name, 1, 25)
 	q := Req{Model: name, Split: rapid.Bool().Draw(t, "split"), Kind: "structured"}
@@ -648,5 +657,119 @@ func trunc(s string, n int) string {
 }
 
 func TestRunnerChildProcess(t *testing.T) { pbt.Run(t, genRobust, checkChild) }
+
+// ---------------------------------------------------------------------------
+// (a3) several requests answered by one process (a library caller: libopenwater, a notebook): every answer must be
+// the one the request would get on its own, whatever was asked before.  The serving process is this test binary
+// re-executed (a kernel panic in a cell goroutine - the known finding - must not take the campaign down).
+
+type HistCase struct{ Reqs []Req }
+
+func genHist(t *rapid.T) HistCase {
+	pool := rapid.SliceOfNDistinct(rapid.SampledFrom(scalarModels()), 1, 2, rapid.ID[string]).Draw(t, "models")
+	n := rapid.IntRange(2, 5).Draw(t, "n")
+	var c HistCase
+	for i := 0; i < n; i++ {
+		c.Reqs = append(c.Reqs, genReqFor(t, rapid.SampledFrom(pool).Draw(t, "model"), rapid.IntRange(0, 2).Draw(t, "full") == 0))
+	}
+	return c
+}
+
+func serve() {
+	var reqs []struct {
+		Body  []byte
+		Split bool
+	}
+	if err := json.NewDecoder(os.Stdin).Decode(&reqs); err != nil {
+		fmt.Fprintln(os.Stderr, "serve: bad request list:", err)
+		os.Exit(3)
+	}
+	w := json.NewEncoder(os.Stdout)
+	for _, q := range reqs {
+		var buf bytes.Buffer
+		sim.RunSingleModelJSON(bytes.NewReader(q.Body), &buf, q.Split)
+		w.Encode(buf.Bytes()) // one base64 line per answer, written before the next request runs
+	}
+	os.Exit(0)
+}
+
+func checkHist(c HistCase) (r pbt.Result) {
+	type wire struct {
+		Body  []byte
+		Split bool
+	}
+	var l []wire
+	for _, q := range c.Reqs {
+		l = append(l, wire{q.body(), q.Split})
+	}
+	in, _ := json.Marshal(l)
+	cmd := exec.Command(os.Args[0])
+	cmd.Env = append(os.Environ(), "VERIF_C17_SERVE=1")
+	cmd.Stdin = bytes.NewReader(in)
+	var so, se bytes.Buffer
+	cmd.Stdout, cmd.Stderr = &so, &se
+	err := cmd.Run()
+	var answers [][]byte
+	dec := json.NewDecoder(&so)
+	for {
+		var a []byte
+		if dec.Decode(&a) != nil {
+			break
+		}
+		answers = append(answers, a)
+	}
+	if err != nil {
+		if bytes.Contains(se.Bytes(), []byte("panic:")) && bytes.Contains(se.Bytes(), []byte("openwater-core/models/")) && bytes.Contains(se.Bytes(), []byte(").Run.func1")) {
+			r.Hit = append(r.Hit, "json-runner-kernel-panic")
+			r.Label("kernel-panic-in-cell-goroutine")
+		} else {
+			r.Failf("the serving process failed after %d of %d answers: %v; stderr: %s", len(answers), len(c.Reqs), err, trunc(se.String(), 600))
+			return
+		}
+	} else if len(answers) != len(c.Reqs) {
+		r.Failf("%d requests, %d answers", len(c.Reqs), len(answers))
+		return
+	}
+	// what an earlier request of the history named, per model and parameter
+	named := map[string]bool{}
+	for i, a := range answers {
+		q := c.Reqs[i]
+		var resp response
+		d := json.NewDecoder(bytes.NewReader(a))
+		if err := d.Decode(&resp); err != nil {
+			r.Failf("request %d (%s): answer is not JSON: %v", i, q.Model, err)
+			return
+		}
+		if rest, _ := readAll(d); strings.TrimSpace(rest) != "" {
+			r.Failf("request %d (%s): bytes after the JSON document: %q", i, q.Model, rest)
+			return
+		}
+		// (the direct run happens in this process: if the runner answered a request whose direct run panics in the
+		// kernel, this process dies and the driver reports the case from the write-ahead file - a disagreement too)
+		var one pbt.Result
+		compareResponse(q, resp, &one)
+		if one.Fail != "" {
+			r.Failf("request %d of %d in one process: %s", i, len(c.Reqs), one.Fail)
+			return
+		}
+		desc := simref.New(q.Model).Description()
+		for _, p := range desc.Parameters {
+			has := false
+			for _, g := range q.Params {
+				has = has || g.Name == p.Name
+			}
+			if !has && named[q.Model+"/"+p.Name] {
+				r.NonTrivial = true
+				r.Label("default-after-an-earlier-request-named-the-parameter")
+			}
+		}
+		for _, g := range q.Params {
+			named[q.Model+"/"+g.Name] = true
+		}
+	}
+	return
+}
+
+func TestRunnerHistoryOneProcess(t *testing.T) { pbt.Run(t, genHist, checkHist) }
 
 func FuzzJsonSafeArray(f *testing.F) { pbt.Fuzz(f, genArr, checkArr) }
